@@ -4,9 +4,11 @@
 package listener
 
 import (
+	"bytes"
 	"crypto/sha256"
 	"encoding/binary"
 	"math/big"
+	"sort"
 	"time"
 
 	"github.com/ChainSafe/sygma-relayer/chains/btc/config"
@@ -88,6 +90,15 @@ func (eh *FungibleTransferEventHandler) ProcessDeposits(blockNumber *big.Int) (m
 	if err != nil {
 		return nil, err
 	}
+	// resources are matched in a fixed order (ascending resource ID) so that every relayer
+	// credits a transaction that pays several bridge addresses to the same resource
+	resourceIDs := make([][32]byte, 0, len(eh.resources))
+	for resourceID := range eh.resources {
+		resourceIDs = append(resourceIDs, resourceID)
+	}
+	sort.Slice(resourceIDs, func(i, j int) bool {
+		return bytes.Compare(resourceIDs[i][:], resourceIDs[j][:]) < 0
+	})
 	for _, evt := range evts {
 		err := func(evt btcjson.TxRawResult) error {
 			defer func() {
@@ -96,7 +107,8 @@ func (eh *FungibleTransferEventHandler) ProcessDeposits(blockNumber *big.Int) (m
 				}
 			}()
 
-			for _, resource := range eh.resources {
+			for _, resourceID := range resourceIDs {
+				resource := eh.resources[resourceID]
 				d, isDeposit, err := DecodeDepositEvent(evt, resource, eh.feeAddress)
 				if err != nil {
 					return err
